@@ -1413,6 +1413,7 @@ func (p *Prog) paramEnv(fd *ast.FuncDecl) ienv {
 		names = append(names, f.Names...)
 	}
 	joined := make([]*ival, len(names))
+	limbJoined := make([][]*ival, len(names)) // per limb parameter: the join of each limb over the call sites
 	nSites := 0
 	obj := p.Info.Defs[fd.Name]
 	for _, cn := range p.sortedFuncNames() {
@@ -1441,6 +1442,50 @@ func (p *Prog) paramEnv(fd *ast.FuncDecl) ienv {
 				if i >= len(call.Args) {
 					continue
 				}
+				if t := p.typeOf(names[i]); t != nil && limbsOf(t) > 1 {
+					// a limb value: the limb intervals the caller knows for the argument
+					nl := limbsOf(t)
+					var site ast.Node
+					for j := len(full) - 1; j >= 0; j-- {
+						if _, ok := full[j].(ast.Stmt); ok {
+							site = full[j]
+							break
+						}
+					}
+					ak := p.exprKey(call.Args[i])
+					var cenv ienv
+					if site != nil && ak != "" {
+						save := p.ivCurFn
+						p.ivCurFn = cfd
+						e2, reached := p.envWalk(cfd.Body.List, p.paramEnv(cfd), site)
+						p.ivCurFn = save
+						if reached {
+							cenv = e2
+						}
+					}
+					if limbJoined[i] == nil {
+						limbJoined[i] = make([]*ival, nl)
+						for n := 0; n < nl; n++ {
+							if v, ok := cenv[ak+"["+itoa(n)+"]"]; ok && cenv != nil {
+								c := v
+								limbJoined[i][n] = &c
+							} else {
+								limbJoined[i][n] = &ival{}
+							}
+						}
+					} else {
+						for n := 0; n < nl; n++ {
+							v, ok := cenv[ak+"["+itoa(n)+"]"]
+							if !ok || cenv == nil {
+								limbJoined[i][n] = &ival{}
+							} else {
+								j := joinIval(*limbJoined[i][n], v)
+								limbJoined[i][n] = &j
+							}
+						}
+					}
+					continue
+				}
 				if t := p.typeOf(names[i]); t == nil || !isIntType(t) {
 					continue
 				}
@@ -1467,6 +1512,15 @@ func (p *Prog) paramEnv(fd *ast.FuncDecl) ienv {
 			if joined[i] != nil && (joined[i].lo != nil || joined[i].hi != nil) {
 				if k := p.ikey(nm); k != "" {
 					env[k] = *joined[i]
+				}
+			}
+			if limbJoined[i] != nil {
+				if k := p.exprKey(nm); k != "" {
+					for n, lv := range limbJoined[i] {
+						if lv != nil && (lv.lo != nil || lv.hi != nil) {
+							env[k+"["+itoa(n)+"]"] = *lv
+						}
+					}
 				}
 			}
 		}
